@@ -127,6 +127,8 @@ def run_cases(seed, k, tier):
                         t = t.scale(np.exp(0.3j) * 1.7)
                     if shape_i == 1:
                         t.canonicalise()
+                    # a prefactor that is not 1 (scale() folds its argument into the root tensor, not into coeff)
+                    t.coeff = [0.37, -1.3 + 0.4j, 2.0][(k + shape_i) % 3] if np.iscomplexobj(t.root.tensor) else [0.37, -1.9, 2.0][(k + shape_i) % 3]
                     order = [b for b in tree.basis_list if not b.__class__.__name__ == "BasisDummy"]
                     ref = t.todense(order)
                     fname = os.path.join(d, f"t{shape_i}.npz")
@@ -142,6 +144,16 @@ def run_cases(seed, k, tier):
                             break
                     if not (np.asarray(t.coeff) == np.asarray(back.coeff)):
                         out["viol"].append(("C14:roundtrip:ttns:coeff", f"TTNS coeff {t.coeff} reloaded as {back.coeff}", detail))
+                    # the same round trip with a user attribute carried along (other_attrs keyword of dump and load)
+                    t.user_tag = np.array([3.5, -1.0])
+                    fname2 = os.path.join(d, f"t{shape_i}_attrs.npz")
+                    t.dump(fname2, other_attrs=["user_tag"])
+                    back2 = TTNS.load(tree, fname2, other_attrs=["user_tag"])
+                    out["cases"].append(f"tree/{fam}/{N}/{shape_i}/{k % 2}/other_attrs")
+                    if not (np.asarray(t.coeff) == np.asarray(back2.coeff)) or not np.array_equal(np.asarray(back2.user_tag), t.user_tag):
+                        out["viol"].append(("C14:roundtrip:ttns:coeff-with-other_attrs", f"TTNS dumped and loaded with other_attrs: coeff {t.coeff} reloaded as {back2.coeff}, attribute {getattr(back2, 'user_tag', None)}", detail))
+                    if not np.array_equal(np.asarray(back2.todense(order)), np.asarray(ref)):
+                        out["viol"].append(("C14:roundtrip:ttns:value-with-other_attrs", "TTNS todense differs after load with other_attrs", detail))
                     back.canonicalise()
                     if np.linalg.norm(np.asarray(back.todense(order)) - np.asarray(ref)) > 1e-10 * (np.linalg.norm(ref) + 1):
                         out["viol"].append(("C14:roundtrip:ttns:later-ops", "canonicalise after load changes the state", detail))
